@@ -140,6 +140,12 @@ def execute(case):
         xc[kx] = xc[kx] * (10.0 ** case["scale_x"])
         ck.label("scaled_x")
     x = T.TT(core.clone_cores(xc))
+    if case["seed"] % 4 == 1:
+        # the same base point with cores that are permuted (non-contiguous) views, as A.t(), diag() or an einsum produce them:
+        # a reshape of such a core (or of a gradient laid out like it) copies instead of aliasing
+        perm = lambda c: c.permute(*reversed(range(c.dim()))).contiguous().permute(*reversed(range(c.dim())))
+        x = T.TT([perm(c) for c in core.clone_cores(xc)])
+        ck.label("base_point_noncontiguous")
     Xm = to_modes(dense(xc), M, N)
     P, kappa, uranks = ref_projector(Xm)
     if uranks != list(R):
